@@ -149,7 +149,23 @@ func genC01(seed uint64) (*Scenario, *c01Meta) {
 	}
 	n := r.Range(3, 10)
 	for i := 0; i < n; i++ {
-		switch k := r.Intn(14); {
+		switch k := r.Intn(18); {
+		case k == 14:
+			// statements executed from a string: they belong to the same transaction
+			t := g.pickTable()
+			g.lines = append(g.lines, r.PickS("EXECUTE 'PRINT 1';", fmt.Sprintf("EXECUTE 'UPDATE %s SET n = n + 3';", t),
+				fmt.Sprintf("EXECUTE 'UPDATE %s SET n = n + %%s WHERE id = %%s' USING 5, %d;", t, 1+r.Intn(4)),
+				fmt.Sprintf("EXECUTE 'DELETE FROM %s WHERE id = %%s; SELECT 1;' USING %d;", t, 1+r.Intn(6))))
+		case k == 15:
+			// a change made inside a user-defined function
+			t := g.pickTable()
+			g.lines = append(g.lines, fmt.Sprintf("DECLARE fn%d FUNCTION (@a) AS BEGIN UPDATE %s SET n = n + @a WHERE id < 3; RETURN @a; END; PRINT fn%d(%d);", i, t, i, 1+r.Intn(5)))
+		case k == 16:
+			g.lines = append(g.lines, fmt.Sprintf("CASE WHEN (SELECT COUNT(*) FROM %s) > %d THEN %s ELSE %s END CASE;", g.pickTable(), r.Intn(4), g.dml(), g.dml()))
+		case k == 17:
+			// a prepared statement executed twice
+			t := g.pickTable()
+			g.lines = append(g.lines, fmt.Sprintf("PREPARE ps%d FROM 'UPDATE %s SET n = n + ? WHERE id = ?'; EXECUTE ps%d USING 1, 1; EXECUTE ps%d USING 2, 2; DISPOSE PREPARE ps%d;", i, t, i, i, i))
 		case k < 6:
 			g.lines = append(g.lines, g.dml())
 		case k == 6:
